@@ -65,8 +65,15 @@ BUILD_ERRORS = []
 
 
 def call(obj, with_z, with_t, arr=False):
-    x, y = (np.array([X, X + 1, 2 * X]), np.array([Y, Y + 0.5, 3 * Y])) if arr else (X, Y)
-    z = (np.array([Z, Z, Z + 1]) if arr else Z) if with_z else None
+    if arr == "int":              # Python ints / integer arrays are ordinary coordinates
+        x, y = 2, -1
+        z = 3 if with_z else None
+    elif arr == "intarr":
+        x, y = np.array([2, -1, 0]), np.array([1, 4, -2])
+        z = np.array([3, 3, 1]) if with_z else None
+    else:
+        x, y = (np.array([X, X + 1, 2 * X]), np.array([Y, Y + 0.5, 3 * Y])) if arr else (X, Y)
+        z = (np.array([Z, Z, Z + 1]) if arr else Z) if with_z else None
     kw = {}
     if with_t:
         kw["t"] = T
@@ -113,7 +120,8 @@ def run(rep: common.Report, tier: str, seed: int, replay=None) -> int:
     nbad = 0
     trees = d1 + d2 if tier == "thorough" else d1 + rng.sample(d2, 6000)
     for c in trees:
-        for wz, wt, arr in ((True, True, False), (False, True, False), (False, True, True), (True, False, True)):
+        for wz, wt, arr in ((True, True, False), (False, True, False), (False, True, True), (True, False, True),
+                            (False, True, "int"), (True, True, "intarr")):
             got = call(c, wz, wt, arr)
             lv, rv = value_of(c.left, wz, wt, arr), value_of(c.right, wz, wt, arr)
             if lv[0] != "val":
